@@ -54,9 +54,13 @@ macro_rules! delegate_to_core {
       $self.mailbox()
           .send(cmd)
           .await.map_err(|_send_error| $crate::error::ZmqError::Internal("Mailbox send error".into()))?;
-      // The command loop may have ended in the meantime: nothing would ever answer.
+      // The command loop may have ended in the meantime: the reply is there already (the
+      // command was served before the loop ended) or it will never come.
       if $self.core().mailbox_closed.load(std::sync::atomic::Ordering::SeqCst) {
-        return Err($crate::error::ZmqError::InvalidState("Socket is closed".into()));
+        return match futures::FutureExt::now_or_never(reply_rx.recv()) {
+          Some(Ok(reply)) => reply,
+          _ => Err($crate::error::ZmqError::InvalidState("Socket is closed".into())),
+        };
       }
       // Await the reply from SocketCore.
       // The `??` propagates both the channel error and the inner Result error.
@@ -73,7 +77,10 @@ macro_rules! delegate_to_core {
               .send(cmd)
               .await.map_err(|_send_error| $crate::error::ZmqError::Internal("Mailbox send error".into()))?;
           if $self.core().mailbox_closed.load(std::sync::atomic::Ordering::SeqCst) {
-            return Err($crate::error::ZmqError::InvalidState("Socket is closed".into()));
+            return match futures::FutureExt::now_or_never(reply_rx.recv()) {
+              Some(Ok(reply)) => reply,
+              _ => Err($crate::error::ZmqError::InvalidState("Socket is closed".into())),
+            };
           }
           reply_rx.recv().await.map_err(|_recv_error| $crate::error::ZmqError::Internal("Reply channel error".into()))?
       }
